@@ -492,7 +492,10 @@ META = {
                          'degrees) instead of as index pairs',
                   needs='two connection problems in one cache directory that differ only in WHICH pair is excluded, with '
                         'equal degrees on the nodes involved: the second one decodes excluded connections',
-                  strengthened=None),
+                  strengthened='C01/C04 sibling pass: after a third of the connection cases, the same graph with a '
+                               'look-alike connector and then with the exclusion moved to it (or a repeatability flag '
+                               'flipped) is decoded in the same process and cache directory; C12 (cache-key '
+                               'near-pairs) caught it from the start'),
     'C03-f': dict(breaks='C03', file='adsg_core/optimization/assign_enc/lazy/imputation/delta.py (LazyDeltaImputer)',
                   change='the delta imputer returns the vector it tried, not the vector the decoder corrected it to',
                   needs='a connection choice handled by a lazy encoder with delta imputation (no pattern match, many '
@@ -501,7 +504,7 @@ META = {
     'C04-f': dict(breaks='C04 (through the on-disk matrix cache)', file='adsg_core/optimization/assign_enc/matrix.py (MatrixGenSettings.get_cache_key)',
                   change='source nodes enter the cache key by str() (degrees only) instead of repr() (degrees and repeatability)',
                   needs='two problems in one cache directory that differ only in whether a source accepts parallel edges',
-                  strengthened=None),
+                  strengthened='see C01-f (sibling pass); C12 caught it from the start'),
     'C05-f': dict(breaks='C05', file='adsg_core/optimization/hierarchy/complete.py (fixed-value combination mask)',
                   change='the combination set of two simultaneously fixed choices is intersected IN PLACE, which edits the '
                          'memoised set of an iteration spec',
@@ -551,6 +554,44 @@ META = {
                   change='duplicates are detected per (choice, mapping object) pair, so two different mappings of the same '
                          'supplementary choice pass',
                   needs='a supplementary choice mapped twice with different mapping objects',
+                  strengthened=None),
+    # ---- seventh round ----
+    'C08-g': dict(breaks='C08', file='adsg_core/graph/adsg_nodes.py (ConnectionChoiceNode._get_assign_nodes)',
+                  change='grouping nodes are refreshed in a loop over zip(src, tgt), which stops at the shorter side',
+                  needs='unequal numbers of sources and targets with a grouping node (conditional member) beyond the '
+                        'shorter side, another graph with other members constructed, and the old graph asked for its '
+                        'connection sets BEFORE anything else (feasible refreshes every grouping node)',
+                  strengthened='C08 alternates the order of its questions between quiescent points (connection sets '
+                               'first / feasible first) and probes connection sets pairwise'),
+    'C10-g': dict(breaks='C10 (listing clause)', file='adsg_core/optimization/assign_enc/patterns/patterns.py (PartitioningPatternEncoder._do_get_all_design_vectors)',
+                  change='"every source has at least n_min targets" became "at least one"',
+                  needs='partitioning settings with a source minimum >= 2; only get_all_design_vectors shows it',
+                  strengthened='C10 classic-pattern family (deterministic: partitioning / assigning / combining x minimum '
+                               '0..2 x 2..4 nodes x both orientations, pattern encoders only); KF-PATTERN-ENC no longer '
+                               'matches listing symptoms (never seen without a decode failure on the unchanged tree)'),
+    'C13-g': dict(breaks='C13', file='adsg_core/graph/adsg.py (DSG.is_constrained_choice)',
+                  change='return None inside the loop: only the first constraint is looked at',
+                  needs='two or more constraints and nodes in a later one; graph-level API / fast encoder / linked DVs',
+                  strengthened=None),
+    'C14-g': dict(breaks='C14', file='adsg_core/graph/incompatibility.py (get_confirmed_incompatibility_edges)',
+                  change='only the source node of an incompatibility edge is tested for being confirmed',
+                  needs='an option incompatible with a node that every option of another, later-decided choice derives, '
+                        'and the node name sorting before the option name (orientation of the re-added marker edge); '
+                        'fast encoder',
+                  strengthened='generator class "necessary conflict" (permanent choices, a node all options of one choice '
+                               'derive, incompatibility to an option of another choice, both name and decision orders) '
+                               'in the decode and selection-walk families; C06 then catches it too'),
+    'C18-g': dict(breaks='C18', file='adsg_core/graph/adsg_nodes.py (ConnectorDegreeGroupingNode.__str__)',
+                  change='the string (and so the fingerprint) of a grouping node includes its aggregated degree, which is '
+                         'rewritten on the shared node object whenever another graph is built',
+                  needs='a grouping node with a conditional member; fingerprint / pickle taken before and after decoding '
+                        'a reduced instance',
+                  strengthened='C18 history-stability pass (fingerprint and earlier/later pickles vs the graph and a fresh '
+                               'build after a random walk and decodes) and a grouping-connector profile'),
+    'C19-g': dict(breaks='C19', file='adsg_core/optimization/assign_enc/matrix.py (_write_to_cache)',
+                  change='the temporary cache file is moved into place in the finally block, also after an interrupted dump',
+                  needs='the limit expiring while the result is pickled to the on-disk cache; a later call reads the '
+                        'truncated file',
                   strengthened=None),
 }
 
